@@ -277,7 +277,7 @@ func ruleC15(w *World, r *Report) {
 
 var (
 	reMessageHead = regexp.MustCompile(`message\s+(\w+)\s*\{`)
-	reSigner  = regexp.MustCompile(`option\s*\(\s*cosmos\.msg\.v1\.signer\s*\)\s*=\s*"([^"]*)"`)
+	reSigner      = regexp.MustCompile(`option\s*\(\s*cosmos\.msg\.v1\.signer\s*\)\s*=\s*"([^"]*)"`)
 )
 
 // signerOptionRule reads the .proto sources: the signer option of each privileged
